@@ -220,4 +220,13 @@ theorem event_layout_from_source (id pk sig : Bytes) (kind t : Nat) (tagBytes co
     eventDecodeAt Src.evReads b = eventDecode b :=
   ⟨event_writer_from_source id pk sig kind t tagBytes content, rfl, event_readers_from_source b⟩
 
+/-- the 32-byte header `Filter::from_parts` writes today (translated statement by statement on every run) is the head of the model's
+encoding, and an absent limit / since / until is written as `u32::MAX` / `0` / `u64::MAX` -/
+theorem filter_header_from_source (ids authors : List Bytes) (kinds : List Nat) (tagBytes : Bytes) (since «until» limit : Nat) (size a b c : Nat) :
+    encodeFilterWith ids authors kinds tagBytes since «until» limit =
+      Src.filterHeader (filterSize ids.length authors.length kinds.length tagBytes.length) ids.length authors.length kinds.length
+        (some limit) (some since) (some «until») ++ (flat32 ids ++ flat32 authors ++ flatKinds kinds ++ tagBytes) ∧
+    Src.filterHeader size a b c none none none = Src.filterHeader size a b c (some U32MAX) (some 0) (some U64MAX) :=
+  ⟨Pocket.filter_header_from_source ids authors kinds tagBytes since «until» limit, filter_defaults_from_source size a b c⟩
+
 end Pocket.C19
